@@ -32,7 +32,7 @@ loader.exec_module(chk)
 # helpers, loops driven by helper results) that neither the bounds prover nor a reviewed entry discharges (DESIGN 7)
 KNOWN_LIMIT = {("ref-R43", "C18"), ("ref-R45", "C18"), ("ref-R46", "C18"), ("ref-R55", "C18"), ("ref-R56", "C18"), ("ref-R83", "C18"),
                # the three list walks rewritten as one iterator struct (`ListWalk`) and the constructor driven by `terms.len()`
-               ("ref-R81", "C15"), ("ref-R81", "C16"), ("ref-R81", "C17")}
+               ("ref-R81", "C16"), ("ref-R81", "C17")}
 
 
 def trees():
